@@ -38,6 +38,10 @@ def node(focus, budget_q=60, budget_t=1500, variants=None, extra_assume=None, re
 
 PROPS = {
     "C05": node("C05", required=["send_ok", "retention_checked"]),
+    "C06": node("C06", required=["send_ok", "copy_checked", "age_checked"]),
+    "C13": node("C13", required=["send_ok"], variants=["epidemic", "spray", "binary_spray", "prophet", "dtlsr", "sensor-mule"]),
+    "C14": node("C14", required=["send_ok", "same_ms_submission"]),
+    "C15": node("C15", required=["send_ok", "status_report_judged"]),
 }
 
 DST = "deterministic simulation with fault injection: seeded search over scripts, schedules and fault sequences"
@@ -49,6 +53,21 @@ MANIFEST_TEXT = {
                     "schedules at store-write hooks) against retention, direct-delivery, epidemic-spread and bounded retry-liveness oracles on the real "
                     "Core+store+cron+CLA manager, all six algorithms. Evidence for the sampled runs, not proof.",
             "design_ref": "DESIGN.md §4 C05, App. A.1/A.2/A.9", "note": NODE_NOTE, "technique": DST},
+    "C06": {"text": "Every Send on a scripted peer keeps the serialised bytes; an independent CBOR delimiter splits them into blocks and the oracle diffs them "
+                    "against the accepted encoding (primary/payload byte-identical, hop count +1 on every attempt, previous node = this node, age + simulated "
+                    "residence, remove-flagged unknown blocks absent, nothing added) and checks that refused/expired bundles are never sent and are dropped. "
+                    "Seeded exploration over block mixes, residence times on the fake clock, retries and restarts.",
+            "design_ref": "DESIGN.md §4 C06, App. A.9", "note": NODE_NOTE, "technique": DST},
+    "C13": {"text": "Per-peer Send log oracle over seeded histories with failures, retries, restarts and interleaved dispatches: never to the previous node, "
+                    "never again to a peer after a success reported before the dispatch was triggered (lineage of the parked task gives the trigger), per algorithm.",
+            "design_ref": "DESIGN.md §4 C13", "note": NODE_NOTE, "technique": DST},
+    "C14": {"text": "Seeded groups of same-millisecond / zero-time / concurrent submissions through Core.SendBundle and the agent manager; oracle: pairwise distinct "
+                    "wire IDs, one store record per submission, store key = wire ID.",
+            "design_ref": "DESIGN.md §4 C14", "note": NODE_NOTE, "technique": DST},
+    "C15": {"text": "Every administrative record the node emits (seen at scripted peers, at local agents, or pending in the store) is decoded and matched against "
+                    "the harness's event log: requested, truthful, addressed to report-to, exact referenced ID, time iff requested, never about admin records or "
+                    "own report-to, bounded count. Seeded draw over flag x outcome combinations.",
+            "design_ref": "DESIGN.md §4 C15", "note": NODE_NOTE, "technique": DST},
 }
 
 NOT_APPLICABLE = [
